@@ -308,3 +308,58 @@ func VH_C15_S6_upper_listing() {
 	vrt.Assert("served-bucket-unaffected", gerr == nil && found && string(gb) == "a")
 	st.Close()
 }
+
+// C15-S6c: a route change at run time (ChangeRoute hot-unloads a bucket, waiting ten seconds
+// before closing it). From the moment the route table no longer lists the bucket the server
+// does not serve it: a set during the grace period stores nothing, a get misses; after the
+// change returned the bucket's directory holds nothing written since; the other bucket keeps
+// serving; loading the bucket again brings its old keys back.
+func VH_C15_S6_change_route() {
+	vrt.Summarize("crc32_write")
+	bucketHashHook()
+	dir := vrt.TempDir()
+	s6Conf(dir, 16, []int{3, 5})
+	st := s6open()
+	k3, k5, k3new := string([]byte{0x30, 'a'}), string([]byte{0x50, 'a'}), string([]byte{0x30, 'n'})
+	vrt.Assert("set-3", s6set(st, k3, []byte("three"), 1) == nil)
+	vrt.Assert("set-5", s6set(st, k5, []byte("five"), 2) == nil)
+	st.flushdatas(true)
+	newConf := config.DBRouteConfig{NumBucket: 16, BucketsStat: make([]int, 16)}
+	newConf.BucketsStat[5] = 1
+	doneCh := make(chan error, 1)
+	before := treeFiles(dir)
+	go func() {
+		_, _, err := st.ChangeRoute(newConf)
+		doneCh <- err
+	}()
+	sleepMs(2000) // inside the grace period of the unload
+	vrt.Assert("route-table-switched", Conf.BucketsStat[3] == 0)
+	vrt.Assert("set-during-grace-period-accepted-silently", s6set(st, k3new, vrt.Bytes("late", 1), 7) == nil)
+	_, _, found, gerr := s6get(st, k3)
+	vrt.Assert("get-of-unrouted-bucket-misses-during-grace-period", gerr == nil && !found)
+	_, _, found, gerr = s6get(st, k3new)
+	vrt.Assert("late-key-misses", gerr == nil && !found)
+	gb, _, found, gerr := s6get(st, k5)
+	vrt.Assert("other-bucket-keeps-serving", gerr == nil && found && string(gb) == "five")
+	vrt.Assert("change-route-ok", <-doneCh == nil)
+	after := treeFiles(dir)
+	for name, content := range after {
+		if strings.HasPrefix(name, "3/") && strings.HasSuffix(name, ".data") {
+			vrt.Assert("nothing-stored-for-the-unrouted-bucket-after-the-switch", before[name] == content)
+		}
+	}
+	_, _, found, gerr = s6get(st, k3)
+	vrt.Assert("get-of-unrouted-bucket-misses", gerr == nil && !found)
+	// route the bucket back: its data is served again
+	back := config.DBRouteConfig{NumBucket: 16, BucketsStat: make([]int, 16)}
+	back.BucketsStat[3], back.BucketsStat[5] = 1, 1
+	_, _, err := st.ChangeRoute(back)
+	vrt.Assert("hot-load-ok", err == nil)
+	vrt.Drain()
+	sleepMs(30)
+	gb, _, found, gerr = s6get(st, k3)
+	vrt.Assert("reloaded-bucket-serves-its-old-key", gerr == nil && found && string(gb) == "three")
+	_, _, found, _ = s6get(st, k3new)
+	vrt.Assert("late-key-was-never-stored", !found)
+	st.Close()
+}
